@@ -181,6 +181,24 @@ func cliItem(idx int, ctx *core.Ctx) {
 		fmtRepeat(idx, ctx)
 		return
 	}
+	if idx%40 == 13 && os.Getenv("VERIF_NO_CONFORM") == "" {
+		// one program draws, with a style of its own, things that other programs draw too (a grid
+		// alone between two style changes, a text, a shape); the next program in this process must
+		// give what it gives in a new process
+		r := core.ItemRNG(ctx.Seed, "C08-after", idx)
+		first := []string{"color \"red\"\ngrid\ncolor \"blue\"\ncircle 1\n", "width 5\nfill \"none\"\ngridn 2 \"red\"\nwidth 1\nmove 5 5\ncircle 2\n", "stroke \"green\"\ndash 3 1\ngrid\n", "font {size:9 family:\"serif\"}\ncolor \"orange\"\ntext \"hi\"\ngridn 10 \"hsl(0deg 100% 0% / 50%)\"\nlinecap \"round\"\n"}[r.Intn(4)]
+		second := []string{"grid\nmove 10 10\ncircle 2\n", "gridn 2 \"red\"\nmove 1 1\nline 5 5\n", "move 10 10\ntext \"hi\"\ngrid\n", "color \"black\"\ngrid\ngridn 10 \"hsl(0deg 100% 0% / 50%)\"\n"}[r.Intn(4)]
+		a := &core.Scenario{Property: "C08", Seed: ctx.Seed, Index: idx, Level: "cli", Kind: "cli-after-another", Program: first, RandSeed: 1, Argv: []string{"--svg-out", "-"}}
+		runCLI(a, cliSchedules()[0], writeProg(a))
+		b := a.Clone()
+		b.Program = second
+		_, out := cliCompare(b)
+		ctx.Inc("evaluations", 5)
+		ctx.Inc("cli_cases_after_another_program", 1)
+		b.Program = "// run in a process in which this program had been run before:\n// " + strings.ReplaceAll(first, "\n", "\n// ") + "\n" + second
+		cliNative(b, ctx, out)
+		return
+	}
 	sc := cliBase(idx, ctx)
 	sc.Tier = ctx.Tier
 	// only programs the parser accepts are interesting here (errors are compared too, but cheaply)
@@ -195,13 +213,13 @@ func cliItem(idx int, ctx *core.Ctx) {
 		ctx.Violate(sc, v)
 		return
 	}
-	if prng.Mix(uint64(idx), 0xc11)%12 == 0 && os.Getenv("VERIF_NO_CONFORM") == "" {
-		cliNative(sc, ctx)
+	if prng.Mix(uint64(idx), 0xc11)%3 == 0 && os.Getenv("VERIF_NO_CONFORM") == "" {
+		cliNative(sc, ctx, first)
 	}
 }
 
 // cliNative runs the real binary (unrewritten tree) in fresh processes.
-func cliNative(sc *core.Scenario, ctx *core.Ctx) {
+func cliNative(sc *core.Scenario, ctx *core.Ctx, inProcess cliOut) {
 	bin := filepath.Join(core.ScratchDir, "bin", "evy")
 	if _, err := os.Stat(bin); err != nil {
 		ctx.Inc("cli_native_skipped_no_binary", 1)
@@ -227,6 +245,18 @@ func cliNative(sc *core.Scenario, ctx *core.Ctx) {
 		}
 		if i == 0 {
 			first = o
+			// the command in this worker process - which has run many other programs, with their
+			// drawings, before - gives what the command gives in a new process
+			used := fmt.Sprintf("status %d\nSTDOUT:\n%s\nSTDERR:\n%s\n", inProcess.status, inProcess.stdout, inProcess.stderr)
+			if inProcess.hostPanic == "" && !strings.Contains(sc.Program, "cls") && used != o {
+				v := sc.Clone()
+				v.ReplayExact = false
+				ctx.Violate(v, &core.Violation{Oracle: "cli-repeat", Signature: "cli:used-process",
+					Expected: "`evy run --rand-seed N` in a process that has run other programs before reproduces, byte for byte, what it gives in a new process",
+					Observed: map[string]any{"args": cliArgs(sc, "PROGRAM"), "new_process": trunc(o, 700), "used_process": trunc(used, 700)},
+					Match:    map[string]string{"observable": "cli-used-process"}})
+				return
+			}
 		} else if o != first {
 			v := sc.Clone()
 			v.ReplayExact = false
